@@ -363,6 +363,20 @@ def w_cli(ctx, wid, seed):
                     ctx.violations.append(dict(campaign='cli', why='%s with %d pairs: checking signature %d against %s must give the stack %r, got rc=%s out=%r err=%r' % (
                         form[0][:16], len(pairs), i, 'the key of another pair' if other else 'its own key', want, r.rc, r.out[-60:], r.err[-160:]), case=dict(list=text, form=form[0][:3], pair=i, other=other), refails=3))
                     return
+    # elements of any length (a signature or key of 127 / 128 / 200 / 300 bytes as hex text: 254 .. 600 characters)
+    for nsig, nkey in ((127, 33), (128, 33), (200, 65), (300, 33), (72, 128), (72, 200)):
+        s_, k_ = 'a7' * nsig, '02' + 'c3' * (nkey - 1)
+        script = '[0x%s 0x%s OP_CHECKSIG]' % (s_, k_)
+        for text in ('%s:%s' % (s_, k_), '0x%s:0x%s' % (s_, k_), 'aa:bb,%s:%s' % (s_, k_)):
+            r = cli.run(exe, ['--pretend-valid=' + text, '--modify-flags=-CONST_SCRIPTCODE'], stdin=script.encode() + b'\n')
+            ctx.case('cli-long:%d:%d:%s' % (nsig, nkey, text[:6]), True, dict(sig_bytes=nsig, key_bytes=nkey, form=text[:6]), 'cli-list-long-elements')
+            if r.timed_out:
+                ctx.inconclusive += 1
+                continue
+            if r.abnormal or r.rc != 0 or r.out.strip() != b'01':
+                ctx.violations.append(dict(campaign='cli', why='a listed pair with a %d-byte signature and a %d-byte key is not accepted (stack 01 expected): rc=%s out=%r err=%r' % (nsig, nkey, r.rc, r.out[-40:], r.err[-160:]),
+                                           case=dict(list='long', sig_bytes=nsig, key_bytes=nkey), refails=3))
+                return
     for text in BAD_LISTS:
         r = cli.run(exe, ['--pretend-valid=' + text], stdin=b'0x51\n')
         ctx.case('cli-bad:' + text, True, dict(list=text, rc=r.rc), 'cli-malformed')
